@@ -22,6 +22,8 @@ ORACLES = {
                  '  CHECK(OUT[O_LEXHASH] == ref_lexhash, "the custom lexer is asked at the reference offsets (after the same whitespace skipping)");\n',
     'dual_hist': '  /* the earlier call (O_ALT_*) ran on another input; nothing to compare with it - its only role is to precede this call */\n',
     'moves':     '  CHECK((OUT[O_FLAGS] & 16u) == 0, "no semantic value is handed to a functor, moved or returned after it has been moved from (each value is consumed at most once)");\n',
+    'inbuf':     '  CHECK((OUT[O_FLAGS] & 64u) == 0, "the parser never reads at or beyond end() of a caller buffer that is a slice of larger storage");\n',
+    'nocopy':    '  CHECK((OUT[O_FLAGS] & 32u) == 0, "no semantic value is copied on its way to a functor (values are moved)");\n',
     'silent':    '  if (OUT[O_OK]) CHECK(OUT[O_NMSG] == 0, "a successful non-verbose parse writes nothing");\n',
 }
 
@@ -57,7 +59,7 @@ class ParseCase:
         self.name = '%s_L%d_o%d%d%d%s%s' % (g.name, L, ws, nl, verbose, tag, '' if variant == 'plain' else '_%s%d' % (variant, ctxkind))
         self.defs = ['LEN=%d' % L, 'MAXMSG=%d' % self.maxmsg, 'MAXRED=%d' % self.maxred, 'MAXTERM=%d' % self.maxterm,
                      'OPT_WS=%d' % ws, 'OPT_NL=%d' % nl, 'OPT_VERBOSE=%d' % verbose,
-                     'OPT_MASK=%s' % ('0xff00' if variant == 'ctx' else '0'), 'OPT_FIXED=%d' % (ws | (nl << 1) | (verbose << 2)), 'LEXMAX=%d' % max(L, 1),
+                     'OPT_MASK=%s' % ('0xff00' if variant == 'ctx' else '0xffff00' if variant == 'slice' else '0'), 'OPT_FIXED=%d' % (ws | (nl << 1) | (verbose << 2)), 'LEXMAX=%d' % max(L, 1),
                      'RSTEPS=%d' % (b['steps'] + 2), 'RSTK=%d' % (b['depth'] + 2)] + list(extra_defs)
         if self.hashlog: self.defs += ['HASHLOG', 'MAXST=%d' % self.maxst]
         self.wd = wd
@@ -72,7 +74,8 @@ class ParseCase:
         L = self.L; g = self.g
         return {'context_parse': self.D, 'skip_whitespace': L + 2, 'find_char': 8, 'update': L + 2, 'erase': max(g.max_rhs, self.b['depth']) + 2,
                 'name_to_term': g.term_count + 1, 'dfa_match': L + 2, 'pop_stacks': 2, 'write_rule_diag_str': g.max_rhs + 1,
-                'flush': max(self.maxmsg, self.maxred, self.maxterm, getattr(self, 'maxst', 0)) + 1, 'h_run': L + 2}
+                'flush': max(self.maxmsg, self.maxred, self.maxterm, getattr(self, 'maxst', 0)) + 1,
+                'h_run': max(self.D, L + 2)}   # when the optimiser merges wrapper code into the driver loop the loop is attributed to the wrapper
     def fn_bounds(self):
         L = self.L
         big = max(self.maxmsg, self.maxred, self.maxterm, getattr(self, 'maxst', 0), len(self.lr.states) + 1) + 2
@@ -153,6 +156,7 @@ class ParseCase:
             if self.variant == 'anslex':
                 extra = {'ANS_IDX': [rnd.choice(list(range(self.g.nt)) + [0xffff]) for _ in range(self.L)], 'ANS_LEN': [rnd.randint(1, max(1, self.L - i)) for i in range(self.L)]}
             if self.variant == 'ctx': opts = (self.ws | (self.nl << 1) | (self.verbose << 2)) | (rnd.randrange(256) << 8)
+            if self.variant == 'slice': opts = (self.ws | (self.nl << 1) | (self.verbose << 2)) | (rnd.choice([32, 10, 9, 97, 0, 255]) << 8) | (rnd.choice([32, 10, 97, 0]) << 16)
             a = self.run_native('real', inp, opts, extra); b = self.run_native('xlat', inp, opts, extra); n += 1
             if a is not None and b is not None and a['out'] is None and b['out'] is None and a['rc'] == b['rc'] and a['rc'] < 0: continue   # both builds crash the same way (a listed finding)
             if a is None or b is None or a['out'] != b['out'] or a['out'] is None:
